@@ -723,13 +723,28 @@ fn budget_case(m: usize, n: usize, e: &Entry, cc: &mut CaseCtx) {
     };
     let cells = (m + 1) * (n + 1);
     cc.nontrivial();
-    let got = match guard(|| call_entry(&mut new_aligner(&scheme, 3, 2, 0), e, &x, &y, 3, &[])) {
+    let mut clips_after: Option<[i32; 4]> = None;
+    let got = match guard(|| {
+        let mut a = new_aligner(&scheme, 3, 2, 0);
+        let al = call_entry(&mut a, e, &x, &y, 3, &[]);
+        let sc = a.get_mut_scoring();
+        clips_after = Some([sc.xclip_prefix, sc.xclip_suffix, sc.yclip_prefix, sc.yclip_suffix]);
+        al
+    }) {
         Ok(a) => a,
         Err(msg) => {
             cc.violation(format!("C02/{}/budget/panic", e.name()), msg);
             return;
         }
     };
+    // a standard mode must leave the aligner's own clip penalties as they were, also when the
+    // call was refused for exceeding the budget
+    if clips_after != Some(scheme.clips()) {
+        cc.violation(
+            format!("C02/{}/clips-not-restored", e.name()),
+            format!("{} x {} call: clip penalties afterwards {:?}, configured {:?}", m, n, clips_after, scheme.clips()),
+        );
+    }
     cc.outcome(&(got.score, got.operations.len()));
     if cells > 5_000_000 {
         let empty = got.score == MIN_SCORE && got.operations.is_empty() && got.xlen == 0 && got.ylen == 0 && got.xstart == 0 && got.xend == 0 && got.ystart == 0 && got.yend == 0;
